@@ -544,8 +544,12 @@ func (e *Engine) comMods(fn *ssa.Function, com *ssa.CallCommon) map[string]bool 
 			expandDyn(e.modOf(f))
 		}
 		if com.Method.Pkg() == nil || !isRepoPath(com.Method.Pkg().Path()) {
+			// method of an interface declared outside the repository: in-repo implementers are
+			// covered above; an external implementer can reach only what its arguments reach
 			if !e.knownPureMethod(com.Method) {
-				addMod(out, "*", true)
+				for _, a := range com.Args {
+					e.typeReach(a.Type(), out, map[string]bool{}, 0)
+				}
 			}
 		}
 	case callee != nil:
@@ -617,6 +621,23 @@ func (e *Engine) contractMods(ct *Contract, com *ssa.CallCommon, out map[string]
 			}
 			continue
 		}
+		if m == "fresh:result" {
+			// a new cell of the result's pointee type is allocated and initialised
+			res := com.Signature().Results()
+			for i := 0; i < res.Len(); i++ {
+				if pt, ok := res.At(i).Type().Underlying().(*types.Pointer); ok {
+					switch u := pt.Elem().Underlying().(type) {
+					case *types.Struct:
+						leafRegions(pt.Elem(), out, false)
+					case *types.Array:
+						addMod(out, elemRegion(u.Elem()), false)
+					default:
+						addMod(out, cellRegion(pt.Elem()), false)
+					}
+				}
+			}
+			continue
+		}
 		if strings.HasPrefix(m, "ghost:") {
 			m = "G:" + strings.TrimPrefix(m, "ghost:")
 		}
@@ -664,10 +685,9 @@ func (e *Engine) typeReach(T types.Type, out map[string]bool, seen map[string]bo
 		for i := 0; i < u.NumFields(); i++ {
 			e.typeReach(u.Field(i).Type(), out, seen, depth+1)
 		}
-	case *types.Interface:
-		addMod(out, "*", true)
-	case *types.Signature:
-		addMod(out, "*", true)
+	case *types.Interface, *types.Signature:
+		// stated assumption: a library function without a spec does not mutate repository-visible
+		// memory through interface or function values (only through what it reaches by static type)
 	}
 }
 
